@@ -493,6 +493,9 @@ def r01c(ctx):
                 continue
             if pol_ and isinstance(t_, ast.Call) and call_name(t_) == "isinstance" and "KeyValuePairNode" in txt_:
                 continue
+            if isinstance(t_, ast.Compare) and len(t_.ops) == 1 and isinstance(t_.ops[0], (ast.Is, ast.IsNot)) \
+                    and isinstance(t_.comparators[0], ast.Constant) and t_.comparators[0].value is None:
+                continue        # `t is not None` after `t = next((... if f.key == t.key), None)`: a presence test, not a condition on the pair
             narrowed.append((t_, pol_))
     if narrowed:
         t_, pol_ = narrowed[0]
@@ -802,9 +805,13 @@ def r01f(ctx):
             problems.append("Remove.on_diff does not mark the node removed")
         if short == "Match" and ".matched_to=self.to_node" not in txt:
             problems.append("Match.on_diff does not record matched_to")
-        if compound and not ("forinself.edits():" in txt.replace("edit", "", 0) or "foreditinself.edits():" in txt) :
+        loops_ = [l_ for f_ in chain for l_ in walk_no_nested(f_.node) if isinstance(l_, ast.For) and isinstance(l_.target, ast.Name)
+                  and isinstance(l_.iter, ast.Call) and self_attr(l_.iter.func) == "edits" and not l_.iter.args]
+        if compound and not loops_:
             problems.append("compound on_diff does not iterate self.edits()")
-        if compound and "edit.on_diff(edit.from_node)" not in txt:
+        if compound and not any(isinstance(c_, ast.Call) and isinstance(c_.func, ast.Attribute) and c_.func.attr == "on_diff"
+                                and dotted(c_.func.value) == l_.target.id and len(c_.args) == 1 and dotted(c_.args[0]) == f"{l_.target.id}.from_node"
+                                for l_ in loops_ for s_ in l_.body for c_ in ast.walk(s_)):
             problems.append("compound on_diff does not push each sub-edit onto its own from_node")
         if problems:
             ctx.violation("R01f", od.file, f"{short}.on_diff", od.node, f"{short}.on_diff",
